@@ -130,7 +130,10 @@ func Base(d *Dialect) *schema.Schema {
 		// a column of an extension / user-defined type, and an array of the enum.
 		ud := col("ud", &postgres.UserDefinedType{T: "ltree"}, true)
 		ea := col("ea", &postgres.ArrayType{Type: en, T: "status[]"}, true)
-		t.AddColumns(e, g, ud, ea)
+		// bit strings: "bit varying" without a length is unlimited, "bit" without a length is bit(1).
+		bv := col("bv", &postgres.BitType{T: "bit varying"}, true)
+		bt := col("bt", &postgres.BitType{T: "bit", Len: 1}, true)
+		t.AddColumns(e, g, ud, ea, bv, bt)
 		t.AddIndexes(
 			schema.NewIndex("idx_d_inc").AddParts(part(1, dd)).AddAttrs(&postgres.IndexInclude{Columns: []*schema.Column{c}}),
 			schema.NewIndex("idx_d_part").AddParts(part(1, dd)).AddAttrs(&postgres.IndexPredicate{P: "d > 0"}),
@@ -530,6 +533,9 @@ func Edits(d *Dialect) []Edit {
 			Edit{"user_defined_type_changed", []string{"col:ud"}, func(s *schema.Schema) {
 				C(T(s, "t"), "ud").Type.Type = &postgres.UserDefinedType{T: "citext"}
 			}, []string{mt("ModifyColumn(ud)[type]")}},
+			Edit{"varbit_unlimited_to_len_1", []string{"col:bv"}, func(s *schema.Schema) { C(T(s, "t"), "bv").Type.Type = &postgres.BitType{T: "bit varying", Len: 1} }, []string{mt("ModifyColumn(bv)[type]")}},
+			Edit{"varbit_unlimited_to_len_8", []string{"col:bv"}, func(s *schema.Schema) { C(T(s, "t"), "bv").Type.Type = &postgres.BitType{T: "bit varying", Len: 8} }, []string{mt("ModifyColumn(bv)[type]")}},
+			Edit{"bit_1_to_bit_8", []string{"col:bt"}, func(s *schema.Schema) { C(T(s, "t"), "bt").Type.Type = &postgres.BitType{T: "bit", Len: 8} }, []string{mt("ModifyColumn(bt)[type]")}},
 			Edit{"enum_array_to_text_array", []string{"col:ea"}, func(s *schema.Schema) {
 				C(T(s, "t"), "ea").Type.Type = &postgres.ArrayType{Type: &schema.StringType{T: "text"}, T: "text[]"}
 			}, []string{mt("ModifyColumn(ea)[type]")}},
